@@ -65,6 +65,7 @@ type PathSample struct {
 	PathCond  []string   `json:"path_cond"`
 	Trace     []string   `json:"trace,omitempty"`
 	Model     []string   `json:"model,omitempty"`
+	Vector    []InputRec `json:"vector,omitempty"`
 }
 
 type pathEnd struct {
@@ -116,6 +117,9 @@ func (p *pathState) note(kind string) {
 func (p *pathState) decide(arity int, kind string) int {
 	if arity <= 1 {
 		return 0
+	}
+	if S != nil && S.deterministic && (strings.HasPrefix(kind, "sched:") || kind == "select" || kind == "timer") {
+		return 0 // schedule-deterministic mode: first enabled thread / first ready case
 	}
 	d := len(p.trace)
 	if d < len(p.prefix) {
